@@ -28,10 +28,10 @@ var c12Shapes = []string{
 	"unary-bad-bin-md", "open-bad-bin-md", "unary-with-trailer", "open-bidi", "open-client",
 	"body", "bad-body", "trailer-ok", "trailer-err", "reset",
 	"reset-unknown-type", "body+trailer", "unary-tiny-timeout", "unary-bad-timeout", "open-id0",
-	"empty-body",
+	"empty-body", "dest-differs-in-case-unary", "dest-differs-in-case-open",
 }
 
-const c12NShapes = 26
+const c12NShapes = 28
 
 const c12NSym = 2 * c12NShapes // shapes x 2 ids
 
@@ -71,6 +71,14 @@ func c12Envelope(sym int, n int) *wire.Rpc {
 	case "wrong-dest-open":
 		h := hdr(svc.MBidi)
 		h.Destination = "someone-else"
+		return &wire.Rpc{Id: id, Header: h}
+	case "dest-differs-in-case-unary":
+		h := hdr(svc.MUnary)
+		h.Destination = "SRV" // another peer's name: names are compared exactly
+		return &wire.Rpc{Id: id, Header: h, Body: body}
+	case "dest-differs-in-case-open":
+		h := hdr(svc.MBidi)
+		h.Destination = "Srv"
 		return &wire.Rpc{Id: id, Header: h}
 	case "unary":
 		return &wire.Rpc{Id: id, Header: hdr(svc.MUnary), Body: body}
@@ -609,7 +617,7 @@ func init() {
 	core.Register(&core.Prop{
 		ID:         "C12",
 		Level:      "exploration",
-		Rule:       "alphabet = 26 envelope shapes x 2 stream ids (52 symbols); ALL sequences of length <= 3 (quick: 143 364) / <= 4 (thorough: 7 454 980) are fed by a scripted peer to a fresh server connection, each followed by a valid probe request that must be answered correctly, a reference-dispatcher check (unary handler invocation count in the allowed range, no handler for wrong destination / malformed requests, one reset per body addressed to a never-opened id), and the end of the connection after which Serve must return; plus sequences of 2..12 envelopes that open no stream fed by a half-duplex peer (it writes the whole batch and the probe before reading anything; now and then it waits another 1.2 s of real time before it reads), seeded field-level mutations of a valid conversation and random sequences of length 5..40 (and 10^5 of length 5 in thorough). distinct_nontrivial = enumerated sequences (all distinct by construction) + distinct other batches.",
+		Rule:       "alphabet = 28 envelope shapes x 2 stream ids (56 symbols); ALL sequences of length <= 3 (quick: 178 808) / <= 4 (thorough: 10 013 304) are fed by a scripted peer to a fresh server connection, each followed by a valid probe request that must be answered correctly, a reference-dispatcher check (unary handler invocation count in the allowed range, no handler for wrong destination / malformed requests, one reset per body addressed to a never-opened id), and the end of the connection after which Serve must return; plus sequences of 2..12 envelopes that open no stream fed by a half-duplex peer (it writes the whole batch and the probe before reading anything; now and then it waits another 1.2 s of real time before it reads), seeded field-level mutations of a valid conversation and random sequences of length 5..40 (and 10^5 of length 5 in thorough). distinct_nontrivial = enumerated sequences (all distinct by construction) + distinct other batches.",
 		Plan:       func(tier string, seed int64) int { return len(c12List(tier)) },
 		Run:        c12Run,
 		Exhaustive: func(string) bool { return true },
